@@ -2828,6 +2828,38 @@ package gomatrixserverlib
 //@   calls createPowerLevelMainline@root mainline-of-the-power-levels-resolved-by-the-first-auth-pass: ncalls(authAndApplyEvents) == 1 && !called(mainlineOrdering)
 //@   calls mainlineOrdering@root after-the-mainline-positions-were-recorded: ncalls(authAndApplyEvents) == 1 && called(createPowerLevelMainline)
 
+// Preparing events for the two v2 orderings: every event is wrapped with ITS OWN timestamp and ID and with the power
+// level / mainline position computed for that very event (the i-th wrapper carries the i-th event). The two look-ups
+// themselves write only their caches (ASSUMED frames, by inspection: powerLevelContents / powerLevelMainlinePos)
+//@ func (*stateResolverV2).getPowerLevelFromAuthEvents
+//@   trusted
+//@   assigns r.powerLevelContents[*]
+//@ func (*stateResolverV2).getFirstPowerLevelMainlineEvent
+//@   trusted
+//@   assigns r.powerLevelMainlinePos[*]
+
+//@ func (*stateResolverV2).wrapPowerLevelEventsForSort
+//@   property C10, C11
+//@   nosafety
+//@   zerooffsets
+//@   requires r != nil
+//@   ensures one-wrapper-per-event: len(result) == len(events) && (forall j int :: 0 <= j && j < len(events) ==> (result[j] != nil && result[j].event == events[j] && result[j].originServerTS == int64(events[j].OriginServerTS()) && result[j].eventID == events[j].EventID()))
+//@   calls getPowerLevelFromAuthEvents@root the-level-of-the-event-being-wrapped: 0 <= idx(1) && idx(1) < len(root_events) && event == root_events[idx(1)]
+//@   loop 1: invariant 0 <= idx(1) && idx(1) <= len(events) && len(block) == len(events)
+//@   loop 1: invariant forall j int :: 0 <= j && j < idx(1) ==> (block[j] != nil && fresh(block[j]) && block[j].event == events[j] && block[j].originServerTS == int64(events[j].OriginServerTS()) && block[j].eventID == events[j].EventID())
+//@   loop 1: step carries-the-level-computed-for-it: block[old(idx(1))].powerLevel == ret(getPowerLevelFromAuthEvents)
+
+//@ func (*stateResolverV2).wrapOtherEventsForSort
+//@   property C10, C11
+//@   nosafety
+//@   zerooffsets
+//@   requires r != nil
+//@   ensures one-wrapper-per-event: len(result) == len(events) && (forall j int :: 0 <= j && j < len(events) ==> (result[j] != nil && result[j].event == events[j] && result[j].originServerTS == int64(events[j].OriginServerTS()) && result[j].eventID == events[j].EventID()))
+//@   calls getFirstPowerLevelMainlineEvent@root the-mainline-position-of-the-event-being-wrapped: 0 <= idx(1) && idx(1) < len(root_events) && event == root_events[idx(1)]
+//@   loop 1: invariant 0 <= idx(1) && idx(1) <= len(events) && len(block) == len(events)
+//@   loop 1: invariant forall j int :: 0 <= j && j < idx(1) ==> (block[j] != nil && fresh(block[j]) && block[j].event == events[j] && block[j].originServerTS == int64(events[j].OriginServerTS()) && block[j].eventID == events[j].EventID())
+//@   loop 1: step carries-the-position-and-steps-computed-for-it: block[old(idx(1))].mainlinePosition == ret(getFirstPowerLevelMainlineEvent, 1) && block[old(idx(1))].mainlineSteps == ret(getFirstPowerLevelMainlineEvent, 2)
+
 // Layering events on the partial state: every state event goes to the slot of its own (type, state key) - the three
 // singleton slots are only for create / power levels / join rules WITH THE EMPTY state key, members and third-party
 // invites are keyed by their state key, everything else by (type, state key); an event never lands in another key's slot
